@@ -188,10 +188,11 @@ class Run:
         # `capacity` is deliberately not part of the C11 snapshot: ProximityArchive.add grows the store before the
         # store validates the field set, so a rejected call may leave the capacity doubled; C11 lists contents,
         # thresholds, statistics and best elite (DESIGN section 3, observed, not claimed)
-        try:
-            o["bounds"] = ([float(x) for x in self.a.lower_bounds], [float(x) for x in self.a.upper_bounds])
-        except RuntimeError:
-            o["bounds"] = None
+        for name in ("lower_bounds", "upper_bounds"):
+            try:
+                o[name] = [float(x) for x in getattr(self.a, name)]
+            except RuntimeError:
+                o[name] = None
         return o
 
     def make_sched(self, entry, n):
@@ -220,6 +221,8 @@ class Run:
             return self.F_("C11", "oracle", f"{where}: malformed call {desc} "
                            f"{'raised ' + str(exc) if res == 'raised' else 'was accepted without an error'} and left "
                            f"non-finite values in the archive ({type(e).__name__}: {e})")
+        if res == "accepted" and faultlib.must_raise(op):
+            return self.F_("C11", "oracle", f"{where}: malformed call {desc} was accepted without an error")
         if res == "accepted":
             if post != pre:
                 return self.F_("C11", "oracle", f"{where}: malformed call {desc} was accepted without an error and "
@@ -239,12 +242,16 @@ class Run:
 
     def bounds_check(self, post, where):
         rows = post["rows"]
-        try:
-            lo = [F(float(x)) for x in self.a.lower_bounds]
-            hi = [F(float(x)) for x in self.a.upper_bounds]
-            got = (lo, hi)
-        except RuntimeError:
-            got = None
+        def side(name):   # each bound on its own: one being unavailable must not hide a stale other
+            try:
+                return [F(float(x)) for x in getattr(self.a, name)]
+            except RuntimeError:
+                return None
+        got = (side("lower_bounds"), side("upper_bounds"))
+        if (got[0] is None) != (got[1] is None):
+            return self.F_("C14", "oracle", f"{where}: lower_bounds is {'un' if got[0] is None else ''}available but "
+                           f"upper_bounds is {'un' if got[1] is None else ''}available")
+        got = None if got[0] is None else got
         if not rows:
             want = None
         else:
